@@ -21,6 +21,7 @@ func init() {
 		ruleD6(c, "C14.D6")
 		ruleSlot(c, "C14.D7")
 		ruleT2(c, "C14.D8")
+		ruleZ4(c, "C14.D9")
 	}
 }
 
